@@ -60,7 +60,8 @@ def run(rep):
     rep.exhaustive = False          # the enumerated spaces are complete, the layout variants are seeded samples
     rep.notes["not_judged_deletions_healed"] = totals["notjudged"]
     rep.notes["rule"] = ("tree equality is judged by JsGrammar.ParseExpr on the token sequence; rejection only for the "
-                         "named classes (closing bracket / terminator deleted, non-reference target, unary base of **)")
+                         "named classes (closing bracket / terminator deleted, non-reference target, unary base of **); comment / string / "
+                         "regex texts are chosen by the specification over an alphabet and judged on the rendered text by LexerFSM")
     rep.assumptions += ["JsGrammar.tla transcribes the ECMA-262 expression grammar for the supported operators (strict mode)",
                         "calls and array literals as assignment targets, missing statement separators: not judged"]
 
